@@ -445,22 +445,25 @@ func TargetFor(route, id string, bid, exp *string) (method, target string) {
 
 // CodeRef names the code a websocket attempt presents.
 type CodeRef struct {
-	Kind string `json:"kind"`         // none | random | op
-	Op   int    `json:"op,omitempty"` // index of the session request in this case whose code is presented
+	Kind string `json:"kind"`          // none | random | op | literal
+	Lit  string `json:"lit,omitempty"` // literal: a code string anybody could think of (all-zero uuid, ...)
+	Op   int    `json:"op,omitempty"`  // index of the session request in this case whose code is presented
 }
 
 // Ws describes one websocket attempt.
 type Ws struct {
-	Path    string  `json:"path"`    // escaped path as sent
-	Decoded string  `json:"decoded"` // r.URL.Path the server is expected to see
-	Code    CodeRef `json:"code"`
-	UA      int     `json:"ua"`
-	Label   string  `json:"label,omitempty"`
+	Path    string              `json:"path"`    // escaped path as sent
+	Decoded string              `json:"decoded"` // r.URL.Path the server is expected to see
+	Code    CodeRef             `json:"code"`
+	UA      int                 `json:"ua"`
+	Label   string              `json:"label,omitempty"`
+	Headers map[string][]string `json:"headers,omitempty"` // further headers of the upgrade request (X-Forwarded-For, ...)
+	Deflate bool                `json:"deflate,omitempty"` // offer permessage-deflate
 }
 
 // Op is one step of a case.
 type Op struct {
-	K    string `json:"k"` // req | ws | leave | setnow
+	K    string `json:"k"` // req | faultreq (a request during which the random source fails once) | ws | leave | setnow | wait | timers | serverclose
 	Req  *Req   `json:"req,omitempty"`
 	Ws   *Ws    `json:"ws,omitempty"`
 	UA   int    `json:"ua,omitempty"`   // leave: which attempt's connection ends
